@@ -183,6 +183,30 @@ def register(reg):
                "self.in_injections.injections", "self.in_injections._injection_base", "self.in_injections._packet_id_base",
                "self.out_injections.injections", "self.out_injections._injection_base", "self.out_injections._packet_id_base"]))
 
+    # resend pass: per unacked entry, either nothing (not due), or give up (budget spent: entry removed, completion fails, nothing
+    # sent), or exactly one retransmission of a copy carrying the RESENT flag
+    reg.add_fn(FnContract(
+        key="hippolyzer.lib.base.message.circuit:Circuit.resend_unacked", relpath=CIRC_REL, qualname="Circuit.resend_unacked",
+        cls="Circuit", prop=PID, also=["C19"],
+        externals={"self.unacked_reliable.values": {"returns": "Opaque:InfoList", "doc": "unacked table view"},
+                   "dt.datetime.now": {"returns": "Opaque:Time", "doc": "clock"},
+                   "dt.timedelta": {"returns": "Opaque:Time", "doc": "interval"},
+                   "copy.copy": {"returns": "Obj:Message", "doc": "shallow copy of the stored message (same packet id)"},
+                   "*.set_exception": {"record_as": "fail", "doc": "completion signal fails"},
+                   "TimeoutError": {"returns": "Opaque:Any", "doc": "exception object"},
+                   "self._send_prepared_message": {"record_as": "wire", "may_raise": "AnyException", "doc": "one datagram on the wire"}},
+        may_raise={"AnyException": ""},
+        loops={0: {"inv": ["True"], "iter_post": [
+            "ncalls('wire') <= 1 and ncalls('fail') <= 1 and ncalls('del:self.unacked_reliable') <= 1",
+            "ncalls('wire') + ncalls('fail') <= 1",
+            "iff(ncalls('fail') == 1, ncalls('del:self.unacked_reliable') == 1)",
+            # a retransmission carries the RESENT flag and is the copy of the stored message (id untouched)
+            "implies(ncalls('wire') == 1, (msg.send_flags & 32) != 0 and called_with('wire', lambda arg0: arg0 == msg) "
+            "and ncalls('setattr:resend_info.last_resent') == 1)",
+            # the budget is decremented exactly when the entry is due
+            "iff(ncalls('wire') + ncalls('fail') == 1, ncalls('setattr:resend_info.tries_left') == 1)"]}},
+        ensures=["L0_left_early == 0"], frame=["*.send_flags"]))
+
     for key, meth, owner in ((f"{MOD}:ProxiedCircuit.prepare_message", "prepare_message", "ProxiedCircuit"),
                              (f"{MOD}:ProxiedCircuit.drop_message", "drop_message", "ProxiedCircuit"),
                              ("hippolyzer.lib.base.message.circuit:Circuit.send@ProxiedCircuit", "send", "Circuit")):
